@@ -165,6 +165,98 @@ class NativeVC:
     def fields(self, obj):
         return dict(vars(obj))
 
+    # ---- frames: native twin of pyvc.loopcut.heap_snapshot / frame_violations
+    @staticmethod
+    def _is_repo_obj(x):
+        cls = type(x)
+        if any("VC_MODEL" in vars(c) for c in cls.__mro__):
+            return False
+        return any((getattr(c, "__module__", "") or "").startswith("someip") for c in cls.__mro__) and hasattr(x, "__dict__")
+
+    @staticmethod
+    def _frozen(x):
+        p = getattr(type(x), "__dataclass_params__", None)
+        return p is not None and p.frozen
+
+    def _ref(self, x):
+        import types
+
+        if isinstance(x, (list, dict, set, bytearray)) or (self._is_repo_obj(x) and not self._frozen(x)):
+            return ("id", id(x))
+        if isinstance(x, types.MethodType):
+            return ("bm", id(x.__self__), id(x.__func__))
+        try:
+            hash(x)
+            return ("v", x)
+        except TypeError:
+            return ("id", id(x))
+
+    def _shallow(self, x):
+        if isinstance(x, dict):
+            return tuple((self._ref(k), self._ref(v)) for k, v in list(x.items()))
+        if isinstance(x, (list, set)):
+            return tuple(self._ref(v) for v in list(x))
+        if isinstance(x, bytearray):
+            return bytes(x)
+        return tuple((k, self._ref(v)) for k, v in vars(x).items())
+
+    def snapshot(self, **roots):
+        import types
+
+        seen, names = {}, {}
+        stack = [(v, k) for k, v in roots.items()]
+        while stack:
+            x, path = stack.pop(0)
+            if isinstance(x, types.MethodType):
+                stack.append((x.__self__, path))
+                continue
+            if isinstance(x, tuple):
+                for i, y in enumerate(x):
+                    stack.append((y, f"{path}[{i}]"))
+                continue
+            if id(x) in seen:
+                continue
+            if isinstance(x, (list, dict, set, bytearray)):
+                seen[id(x)] = (x, self._shallow(x))
+                names[id(x)] = path
+                if isinstance(x, dict):
+                    for v in list(x.values()):
+                        stack.append((v, f"{path}[...]"))
+                elif isinstance(x, list):
+                    for i, v in enumerate(x):
+                        stack.append((v, f"{path}[{i}]"))
+                elif isinstance(x, set):
+                    for v in list(x):
+                        stack.append((v, f"{path}{{...}}"))
+                continue
+            if not self._is_repo_obj(x):
+                continue
+            if not self._frozen(x):
+                seen[id(x)] = (x, self._shallow(x))
+                names[id(x)] = path
+            for k, v in vars(x).items():
+                stack.append((v, f"{path}.{k}"))
+        return ("snapshot", (seen, names))
+
+    def changed(self, snap):
+        seen, names = snap[1]
+        out = []
+        for oid, (x, sh) in seen.items():
+            try:
+                same = self._shallow(x) == sh
+            except Exception:
+                same = False
+            if same:
+                continue
+            if isinstance(x, (list, dict, set, bytearray)):
+                out.append(names[oid])
+            else:
+                a, b = dict(sh), dict(self._shallow(x))
+                for k in list(a) + [k for k in b if k not in a]:
+                    if a.get(k, "<absent>") != b.get(k, "<absent>"):
+                        out.append(f"{names[oid]}.{k}")
+        return sorted(set(out))
+
     def map(self, name, key=None, val=None, default=None, inv=None, like=None):
         if like is not None:
             default = getattr(like, "default_factory", None)
